@@ -42,7 +42,19 @@ type encCfg struct {
 	Overrides map[string]string // class -> op ("" none, redact, encrypt, hmac-sha256, bogus)
 	Wrapper   string            // present absent failing
 	FailAt    int
+	Ignore    bool // IgnoreTypes = {*Ign}
 }
+
+// Ign is a type the filter may be told to ignore (IgnoreTypes): values of it are exempt by
+// configuration where the filter honours the setting, so its leaves are never asserted (EITHER);
+// the input must stay untouched all the same.
+type Ign struct {
+	Note  string
+	Level string `class:"secret"`
+	Tags  []string
+}
+
+var tIgnPtr = reflect.TypeOf(&Ign{})
 
 func (c encCfg) String() string {
 	var ks []string
@@ -50,7 +62,7 @@ func (c encCfg) String() string {
 		ks = append(ks, k+"->"+v)
 	}
 	sort.Strings(ks)
-	return fmt.Sprintf("overrides=%v wrapper=%s failAt=%d", ks, c.Wrapper, c.FailAt)
+	return fmt.Sprintf("overrides=%v wrapper=%s failAt=%d ignoreTypes=%v", ks, c.Wrapper, c.FailAt, c.Ignore)
 }
 
 func (c encCfg) allNone() bool {
@@ -386,6 +398,8 @@ func (g *gen) genField(depth int) *spec {
 			f.hasTag, f.class, f.op = true, rt.Pick(g.r, classes), rt.Pick(g.r, ops)
 		}
 		return f
+	case x < 56 && g.cfg.Ignore:
+		return &spec{kind: "ign", typ: tIgnPtr}
 	case x < 60 || depth <= 0:
 		k := rt.Pick(g.r, []string{"int", "bool", "float", "time", "nilptr", "niliface"})
 		switch k {
@@ -535,6 +549,13 @@ func (g *gen) inst(s *spec, path []pstep, exp Expect, untagged bool, depth int) 
 	case "time":
 		v.Set(reflect.ValueOf(time.Unix(1_600_000_000+int64(g.r.Intn(1000000)), 0).UTC()))
 	case "nilptr", "niliface":
+	case "ign":
+		ig := &Ign{Note: g.canary(), Level: g.canary(), Tags: []string{g.canary()}}
+		g.leaves = append(g.leaves,
+			leaf{Path: cp(cp(path, pstep{K: 'P'}), pstep{K: 'N', Key: "Note"}), Canary: ig.Note, Exp: Either},
+			leaf{Path: cp(cp(path, pstep{K: 'P'}), pstep{K: 'N', Key: "Level"}), Canary: ig.Level, Exp: Either},
+			leaf{Path: cp(cp(cp(path, pstep{K: 'P'}), pstep{K: 'N', Key: "Tags"}), pstep{K: 'I', I: 0}), Canary: ig.Tags[0], Exp: Either})
+		v.Set(reflect.ValueOf(ig))
 	case "struct":
 		for i, f := range s.fields {
 			fe := exp
@@ -607,6 +628,8 @@ func (g *gen) genDyn(depth int) *spec {
 	case x < 16:
 		k := rt.Pick(g.r, []string{"int", "bool", "float", "time"})
 		return &spec{kind: k, typ: leafType(k)}
+	case x < 24 && g.cfg.Ignore:
+		return &spec{kind: "ign", typ: tIgnPtr}
 	case x < 60 || depth <= 0:
 		k := rt.Pick(g.r, []string{"string", "string", "bytes", "strings", "bytess", "wstr", "pwstr", "wbytes", "pwbytes"})
 		return &spec{kind: k, typ: leafType(k)}
